@@ -167,6 +167,19 @@ class C15(core.Check):
             for _ in range(rng.choice([2, 4, 8, 16])):
                 progs.append([['eval', rng.randrange(len(EXPRS)), rng.randrange(len(DOCS))] for _ in range(rng.randint(20, 120))])
             cases.append(dict(bounds=list(st['shipped']), threads=progs))
+        # contended schedules: every thread evaluates the same few expensive texts, each thread on its own tree, so that two threads
+        # are inside the same compiled expression at the same time
+        sizes = sorted(range(len(EXPRS)), key=lambda k: -sum(len(str(x)) for x in st['table'][k]) if st['valid'][k] else 0)
+        hot = sizes[:3]
+        nh = 6 if self.tier == 'quick' else 30
+        for _ in range(nh):
+            progs = []
+            nthreads = rng.choice([4, 8, 8])
+            for ti in range(nthreads):
+                d = ti % len(DOCS)
+                progs.append([['eval', rng.choice(hot), d] for _ in range(rng.randint(150, 300))])
+            cases.append(dict(bounds=list(st['shipped']), threads=progs))
+        nt += nh
         self.stats.update(exhaustive_histories=n_a, random_histories=nb, random_history_length=ln, threaded_runs=nt,
                           texts=len(EXPRS), texts_not_compiling=st['valid'].count(False))
         return cases
